@@ -451,7 +451,9 @@ pub fn run_c12(tier: &str, seed: u64) -> i32 {
         gates: vec![("c12.histories_completed", if quick { 10_000 } else { 300_000 }), ("c12.stop_rule_evaluated", if quick { 2_000 } else { 60_000 }), ("c12.lifecycle_events", 20_000)],
         budget_s: if quick { 900 } else { 3000 },
     };
-    run_cases(plan, tier, seed, move |idx, r, l| { run_history(r, l, idx); })
+    let sim = cases_report(plan, tier, seed, move |idx, r, l| { run_history(r, l, idx); });
+    let real = crate::realdrv::c12_real_driver_report(tier, seed);
+    sim.merge(real, "client_impl_simulator", "real_threaded_client").finish()
 }
 
 /* ---------------------------------------------------------------------------------------- */
